@@ -570,3 +570,32 @@ def solve_contract(A, b, name="x"):
 
 def names():
     return dict(ST.vars)
+
+
+def lookup(table, idx):
+    """table[idx] for a concrete table (list of ints) and a possibly symbolic integer index"""
+    if ST.mode == "sym":
+        c = _core()
+        z3 = _z3()
+        if isinstance(idx, c.Sym):
+            vals = [int(v) for v in table]
+            if not vals:
+                return c.SymInt(z3.IntVal(0))
+            t = z3.IntVal(vals[-1])
+            for k in range(len(vals) - 2, -1, -1):
+                t = z3.If(idx.t == k, z3.IntVal(vals[k]), t)
+            return c.SymInt(t)
+    if instrumented():
+        c = _core()
+        if isinstance(idx, c.Sym):
+            idx = c.value_of(idx)
+    return int(table[int(idx)])
+
+
+def int_div(a, b):
+    """floor division of a possibly symbolic integer by a positive concrete integer"""
+    return a // b
+
+
+def int_mod(a, b):
+    return a % b
